@@ -16,7 +16,7 @@ Names == {"ook-never-below-true-minimum", "ook-within-grid-error-of-minimum", "o
           "ook-threshold-midpoint-for-equal-sigmas", "optimum-threshold-solves-density-equation", "BER-non-increasing-in-mu", "BER-decreases-with-received-power",
           "utils.theory_BER=error-integral-on-model-levels-and-variances", "noise_variances=thermal+shot-monomials", "average-power-is-P_avg",
           "p_ase=monomial", "mu_ASE=monomial", "levels=monomial", "estimator=formula-on-eye-statistics", "ppm-soft-M2=Q",
-          "threshold-covariant-under-a-change-of-units"}
+          "threshold-covariant-under-a-change-of-units", "value-independent-of-argument-dtype"}
 SciNonInc(s, slack) == \A i \in 1..(Len(s) - 1) : SciLeq(s[i + 1], s[i], slack)
 Clauses(e) ==
   CASE e.kind = "qpoint" -> (IF ~SciLeq(QTab[e.k + 1], e.val, 20) THEN {e.fn \o "-below-Q(k)"} ELSE {}) \cup
